@@ -64,6 +64,8 @@ def plans():
     from . import c03
     obs4 = metagen.battery(['chk_assoc', 'chk_assoc', 'chk_id', 'consistent', 'cli'], per_step=4)
     for p in c03._plans0():
+        if p['schema'] == 'plain2':
+            continue                      # inferred classes have no identifiers or associations to check
         p = dict(p)
         p['name'] += '_loaded'
         p['obs'] = obs4
